@@ -149,7 +149,7 @@ func genFile(seed uint64, faulty bool) *Scenario {
 	sc := &Scenario{Prop: "C17", Seed: seed, Faulty: faulty, GlobalCB: "instant", Shutdown: "cancel", MaxSteps: 30000}
 	g.sc = sc
 	fs := &FileSpec{Layout: "plain"}
-	if g.pct(35) {
+	if g.pct(45) {
 		fs.Layout = "k8s"
 	}
 	if g.pct(33) {
@@ -209,28 +209,35 @@ func genFile(seed uint64, faulty bool) *Scenario {
 		if op.K == "k8s-swap" && g.pct(40) {
 			// a rewrite through the path right behind a swap: lands around the
 			// moment the watcher moves its directory watch
-			rw := Op{K: "rewrite", Part: g.filePart(pInvalid), N: g.in(1, 3)}
+			rw := Op{K: "rewrite", Part: g.filePart(pInvalid), N: g.in(0, 3)}
 			w.Ops = append(w.Ops, rw)
 			continue
 		}
-		switch g.r.IntN(4) {
+		switch g.r.IntN(5) {
 		case 0:
 			w.Ops = append(w.Ops, Op{K: "sleep", D: int64(g.in(1, 5000)) * 1e6})
 		case 1:
 			w.Ops = append(w.Ops, Op{K: "sleep", D: int64(g.in(1, 20)) * 60e9})
+		case 2:
+			w.Ops = append(w.Ops, Op{K: "await-read"})
 		}
 	}
-	if fs.Layout == "k8s" && g.pct(30) {
+	if fs.Layout == "k8s" && g.pct(45) {
 		// end with a swap immediately followed by a short rewrite through the path
-		sw := Op{K: "k8s-swap", Part: g.filePart(pInvalid), N: g.in(0, 1)}
+		sw := Op{K: "k8s-swap", Part: g.filePart(pInvalid), N: g.in(0, 2) / 2}
 		if g.pct(35) {
 			sw.Part, sw.Str = nil, "same"
 		}
-		w.Ops = append(w.Ops, sw)
-		if g.pct(50) {
+		// (a long pause first: the watcher has drained every earlier event, so the
+		// swap is followed by exactly one reload)
+		w.Ops = append(w.Ops, Op{K: "sleep", D: int64(g.in(2, 30)) * 60e9}, sw)
+		switch g.r.IntN(4) {
+		case 0:
 			w.Ops = append(w.Ops, Op{K: "sleep", D: int64(g.in(1, 5000)) * 1e6})
+		case 1, 2:
+			w.Ops = append(w.Ops, Op{K: "await-read"})
 		}
-		w.Ops = append(w.Ops, Op{K: "rewrite", Part: g.filePart(0), N: 1})
+		w.Ops = append(w.Ops, Op{K: "rewrite", Part: g.filePart(0), N: g.in(0, 1)})
 	}
 	sc.Clients = append(sc.Clients, w)
 	if g.pct(40) {
@@ -295,7 +302,7 @@ func (g *gen) writerOp(fs *FileSpec, pInvalid int) Op {
 	switch g.r.IntN(12) {
 	case 0, 1, 2:
 		op := content()
-		op.K, op.N = "rewrite", g.in(1, 4)
+		op.K, op.N = "rewrite", g.in(0, 4)
 		return op
 	case 3, 4, 5:
 		op := content()
@@ -393,12 +400,25 @@ func (r *Run) writer(c *ClientSpec) {
 	defer r.debugWatches()
 	for i := range c.Ops {
 		op := &c.Ops[i]
-		if op.K != "sleep" {
+		if op.K != "sleep" && op.K != "await-read" {
 			f.lastOpAt = r.sim.Step()
 		}
 		switch op.K {
 		case "sleep":
 			simrt.Sleep(time.Duration(op.D))
+		case "await-read":
+			// pause until the code under test has completed one more read of the
+			// file (or ten simulated minutes have passed): the next operation then
+			// lands right behind a read, before the watcher has finished reacting to it
+			n, giveUp := len(r.reads), false
+			r.sim.Spawn(fmt.Sprintf("await-timer-%d", i), func() {
+				simrt.Sleep(10 * time.Minute)
+				giveUp = true
+			})
+			simrt.YieldWhen("w.await-read", func() bool { return len(r.reads) > n || giveUp })
+			if !giveUp {
+				r.probe("operation-right-behind-a-read")
+			}
 		case "reload":
 			select {
 			case f.reload <- syscall.SIGHUP:
@@ -417,6 +437,16 @@ func (r *Run) writer(c *ClientSpec) {
 				continue
 			}
 			changed()
+			if op.N == 0 {
+				// the whole rewrite within one scheduling step: a real writer's
+				// three system calls can all land between two steps of the watcher
+				fh.Write(content)
+				fh.Close()
+				changed()
+				simrt.Yield("w.rewritten")
+				r.probe("in-place-rewrite-single-step")
+				continue
+			}
 			simrt.Yield("w.truncated")
 			n := op.N
 			if n < 1 {
@@ -530,13 +560,36 @@ func (r *Run) oracleC17() {
 	if f == nil || len(r.installs) == 0 {
 		return
 	}
-	// (b) no spurious version: a new version always changes some slot
-	for i := 1; i < len(r.installs); i++ {
-		// (equal stamps alone are not enough: a torn read and the complete
-		// read of the same content carry the same stamp)
-		if r.installs[i].Stamps == r.installs[i-1].Stamps && r.installs[i].FP == r.installs[i-1].FP {
-			r.fail("C17.spurious-version", "serial %d (step %d) was installed with exactly the source values and content of its predecessor: re-reading unchanged content produced a version", r.installs[i].Serial, r.installs[i].Step)
+	// (b) no spurious version: the file source causes at most one new version
+	// per change of the bytes it read (a torn read and the complete read of one
+	// document are two different byte strings, and may even stack to the very
+	// same config when another source overrides the leaves they differ in)
+	transitions := 0
+	var lastData []byte
+	haveData := false
+	for _, rr := range r.reads {
+		if rr.Err != "" {
+			continue
 		}
+		if haveData && string(rr.Data) != string(lastData) {
+			transitions++
+		}
+		lastData, haveData = rr.Data, true
+	}
+	fileInstalls := 0
+	for i := 1; i < len(r.installs); i++ {
+		other := false
+		for s := 0; s < 4; s++ {
+			if s != f.idx && r.installs[i].Stamps[s] != r.installs[i-1].Stamps[s] {
+				other = true
+			}
+		}
+		if !other {
+			fileInstalls++
+		}
+	}
+	if fileInstalls > transitions {
+		r.fail("C17.spurious-version", "%d versions were installed on behalf of the file source although the bytes it read changed only %d times: re-reading unchanged content produced a version", fileInstalls, transitions)
 	}
 	// (c) every installed file stamp is a content that was written to the path
 	ids := map[uint64]bool{}
@@ -729,4 +782,29 @@ func (r *Run) debugWatches() {
 		}
 		return nil
 	})
+}
+
+// bytesChangedBetween: did the code under test read different bytes in
+// (from, to] than in its last successful read up to from? (A torn read and the
+// complete read of one document differ in bytes but may stack to the very
+// same config when another source overrides the leaves they differ in.)
+func (r *Run) bytesChangedBetween(from, to int) bool {
+	var last []byte
+	have := false
+	for _, rr := range r.reads {
+		if rr.Err != "" {
+			continue
+		}
+		if rr.Step <= from {
+			last, have = rr.Data, true
+			continue
+		}
+		if rr.Step > to {
+			break
+		}
+		if !have || string(rr.Data) != string(last) {
+			return true
+		}
+	}
+	return false
 }
